@@ -8,6 +8,7 @@ from vlib import gen
 from vlib.runner import Stats, Violation, sut
 
 ID = "C16"
+DETERMINISTIC = True  # pure in-memory functions judged by a pure oracle: see runner (a failure seen once counts)
 RULE = (
     "case = list of 0..15 events (ms-grid timestamps, us durations, duplicates, ids absent or shared between events as when reads of several buckets are concatenated) with data over keys {a,b,c} each present or absent (put into the dict in an order that varies from event to event), values from "
     "{'x','y',1,2,null,['x'],['x','y'],0,'',[],'1','None',['1'],[1]} x non-empty key list x filter key/values x count >= 0. Oracles: merge_events_by_keys against grouping by the tuple "
